@@ -51,6 +51,28 @@ def observe(lib, cases):
     return obs
 
 
+def laws_obs(lib, pairs):
+    """all six operators on (a, b) and < > on (b, a): the consistency laws need no oracle"""
+    out = []
+    p = lib.Parser()
+    for a, b in pairs:
+        p.set_variable('va', dec(a))
+        p.set_variable('vb', dec(b))
+        r = {}
+        for name, f in (('lt', 'va<vb'), ('eq', 'va=vb'), ('gt', 'va>vb'), ('le', 'va<=vb'), ('ge', 'va>=vb'), ('ne', 'va<>vb'),
+                        ('rlt', 'vb<va'), ('rgt', 'vb>va'), ('req', 'vb=va')):
+            x = p.parse(f)
+            r[name] = enc(x['result']) if x['error'] is None else {'t': 'err', 'c': x['error']}
+        out.append({'kind': 'laws', 'in': {'op': 'laws', 'a': a, 'b': b}, 'r': r, 'out': {'res': {'t': 'blank'}, 'err': ''}, 'mode': 'var',
+                    'formula': 'all six operators'})
+    return out
+
+
+def mixed_text(rng):
+    w = rng.choice(['a', 'ab', 'total', 'x1', 'straße', 'é', 'zz'])
+    return {'t': 'txt', 's': [ord(c) for c in ''.join(rng.choice([c.upper(), c.lower(), c]) for c in w)]}
+
+
 def rand_value(rng):
     k = rng.choice(['num', 'num', 'date', 'txt', 'txt', 'bool', 'blank'])
     if k == 'num':
@@ -106,12 +128,20 @@ def main(tier, replay=None):
             b = a
         cases.append({'a': a, 'b': b, 'op': rng.choice(OPS), 'mode': rng.choice(['var', 'var', 'lit'])})
     obs = observe(lib, cases)
+    lp = [(p['a'], p['b']) for p in pairs]
+    for _ in range(1500 if tier == 'quick' else 40000):
+        a = rand_value(rng) if rng.random() < 0.5 else mixed_text(rng)
+        b = rand_value(rng) if rng.random() < 0.4 else mixed_text(rng)
+        lp.append((a, b))
+    for o in laws_obs(lib, lp):
+        o['id'] = len(obs) + 1
+        obs.append(o)
     CH = 60000
     for k in range(0, len(obs), CH):
         part = obs[k:k + CH]
         v = core.validate_obs(run, 'Trace_C07', part, 'p%d' % (k // CH))
         core.tally(run, part, v, 'c07', nontrivial=lambda o: o['in']['a'] != o['in']['b'],
-                   key=lambda o: json.dumps([o['in'], o['mode']], sort_keys=True))
+                   key=lambda o: json.dumps([o['in'], o['mode'], o.get('kind', '')], sort_keys=True))
     run.exhaustive = True
     run.samples = [obs[7], obs[len(obs) // 2], obs[-1]]
     return run.finish()
